@@ -122,6 +122,10 @@ def program_for(sc):
         else:
             used = leaves_of(f) + (leaves_of(sc["formula2"]) if form == "when" else [])
             for l in sorted(set(used)):
+                if l in (sc.get("instant") or []):
+                    # a leaf flow that has nothing to wait for: it finishes in the step that starts it
+                    lines += ["flow leaf %s" % l.lower(), "  $done = 1", ""]
+                    continue
                 lines += ["flow leaf %s" % l.lower()] + (["  when Ev%s()" % l, "    return", "  or when Fail%s()" % l, "    abort", ""] if sc.get("with_fail") else ["  match Ev%s()" % l, ""])
     return "\n".join(lines)
 
@@ -177,6 +181,11 @@ class C07(InterpProp):
         sc["leaf_style"] = d.choice(["name", "param"], "leafstyle")
         sc["with_fail"] = form != "match" and d.chance(0.45, "withfail")
         sc["rounds"] = 2 if d.chance(0.35, "rounds") else 1
+        if form != "match" and sc["leaf_style"] == "name" and d.chance(0.25, "instant"):
+            # (in a when statement only one case gets instant leaves: which of two cases that become true in the same step wins is not
+            # something the formulas say)
+            pool = used if form != "when" else (leaves_of(sc["formula"]) if d.chance(0.5, "instant-side") else leaves_of(sc["formula2"]))
+            sc["instant"] = [l for l in pool if d.chance(0.4, "instant-leaf", l)]
         sc["noise_seed"] = d.randint(0, 1 << 30, "noise")
         sc["tie_seed"] = d.randint(0, 1 << 30, "tie")
         return sc
@@ -305,14 +314,28 @@ class C07(InterpProp):
             everyone = set(leaves)
             for (kind, l) in dl:
                 exp = []
+                instant = set(sc.get("instant") or [])
                 if kind == "go":
                     active = True
+                    if instant:
+                        out.probe("instantly_finishing_leaf")
+                        got |= instant
+                        if evaluate(f1, got):
+                            exp, done = ["Done"], True
+                        elif f2 is not None and evaluate(f2, got):
+                            exp, done = ["Done2"], True
                 elif kind == "again":
                     # the flow went on to `match Again()` if the statement completed (for await: unless it failed); the statement
                     # then starts afresh: nothing that arrived before counts
                     if done and main_alive:
                         got, failed, done = set(), set(), False
                         out.probe("statement_executed_again_in_same_instance")
+                        if instant:
+                            got |= instant
+                            if evaluate(f1, got):
+                                exp, done = ["Done"], True
+                            elif f2 is not None and evaluate(f2, got):
+                                exp, done = ["Done2"], True
                 elif kind in ("leaf", "dup", "pre", "fail") and active and not done:
                     if l not in got and l not in failed:
                         (failed if kind == "fail" else got).add(l)
@@ -337,6 +360,12 @@ class C07(InterpProp):
             if marks != expected:
                 i = next(k for k, (a, b) in enumerate(zip(marks, expected)) if a != b)
                 kind = "early" if marks[i] and not expected[i] else ("late-or-never" if expected[i] and not marks[i] else "wrong-case")
+                if kind == "late-or-never" and dl[i][0] in ("leaf", "dup", "go", "again") and sc.get("instant"):
+                    # F34's shape: the formula became true through leaf flows that finished in the step that started them (alone, or
+                    # together with a later event)
+                    won = f1 if expected[i] == ["Done"] else f2
+                    if won is not None and set(sc["instant"]) & set(leaves_of(won)):
+                        kind += ":needs-instantly-finished-leaf"
                 out.violate("formula-mismatch", "%s:%s" % (form, kind),
                             "%s %s%s with deliveries %s: at delivery %d (%s) the interpreter emitted %r, the formula demands %r"
                             % (form, G.render_formula(f1), (" / " + G.render_formula(f2)) if f2 is not None else "", [("%s:%s" % (k, l)) if l else k for k, l in dl], i, dl[i], marks[i], expected[i]),
